@@ -1,0 +1,25 @@
+//go:build verif
+
+package wire
+
+// VerifLockProbe tries every mutex owned by the wire connection once and returns the names of
+// those that could not be taken (build tag "verif" only).
+func (c *ClientConn) VerifLockProbe() []string {
+	var held []string
+	if c.mu.TryLock() {
+		c.mu.Unlock()
+	} else {
+		held = append(held, "wire.ClientConn.mu")
+	}
+	if c.upstreams.mu.TryLock() {
+		c.upstreams.mu.Unlock()
+	} else {
+		held = append(held, "wire.ClientConn.upstreams.mu")
+	}
+	if c.downstreams.mu.TryLock() {
+		c.downstreams.mu.Unlock()
+	} else {
+		held = append(held, "wire.ClientConn.downstreams.mu")
+	}
+	return held
+}
